@@ -10,6 +10,8 @@
 //       eigenvalues, eigenvectors) to the baseline; also for PAIRS of faults (second fault during the recovery run);
 //   (d) no sanitizer report (ASan/UBSan abort = harness failure).
 // Model tie (symmetric family): the fresh-object history (faults, then clean run) is sent as a `hermf` request to Driver/C14.lean.
+// Model tie (general family): the same history on GenEigsSolver / GenEigsRealShiftSolver is sent as a `genf` request
+// (FaultOpGen.genKernF: outcome of every faulted call, num_operations() at the throw, then the recovery run bit for bit).
 #include <cstdlib>
 #include <new>
 static long g_live = 0; static bool g_track = false;
@@ -240,7 +242,7 @@ template <class Make, class Resp> static void sweep(Ctx& c, Log14& log, Make mak
             { Track t; F.reset(); }
         }
         if (g_live != L0) out.fail("leak-after-destroy", c.cls + ": " + str(g_live - L0) + " heap block(s) still live after fault at application " + str(k) + ", recovery and destruction of the solver", rj(c, k, k2, "fresh"));
-        if (hdr) out.corr(*hdr + (pair ? " 2 " + str(k) + " " + str(k2) : " 1 " + str(k)), resp.size() > 3 ? resp.substr(3) : resp);
+        if (hdr) { out.corr(*hdr + (pair ? " 2 " + str(k) + " " + str(k2) : " 1 " + str(k)), resp.size() > 3 ? resp.substr(3) : resp); out.count(hdr->compare(0, 4, "genf") == 0 ? "tied_genf" : "tied_hermf"); }
     }
     if (hdr) {   // the fault-free history itself
         HP F; { Track t; F = make(); } Res Rf; run_clean(*F, log, Rf);
@@ -254,6 +256,11 @@ static std::string herm_header(int variant, const Params& P, double sigma, const
     return "hermf " + str(variant) + " " + str(P.n) + " " + str(P.nev) + " " + str(P.ncv) + " " + str(dbits(eps23)) + " " + str(dbits(near0)) + " " + str(dbits(eps)) + " " + str(dbits(sigma)) + mat_bits(M) +
         " " + str(P.sel) + " " + str(P.maxit) + " " + str(dbits(P.tol)) + " " + str(P.sort) + vec_bits(P.v0);
 }
+static std::string genf_header(int variant, const Params& P, double sigma, const Mat& M) {
+    const double eps = Spectra::TypeTraits<double>::epsilon(); const double eps23 = std::pow(eps, double(2) / 3); const double near0 = Spectra::TypeTraits<double>::min() * double(10);
+    return "genf " + str(variant) + " " + str(P.n) + " " + str(P.nev) + " " + str(P.ncv) + " " + str(dbits(eps23)) + " " + str(dbits(near0)) + " " + str(dbits(eps)) + " " + str(dbits(sigma)) + mat_bits(M) +
+        " " + str(P.sel) + " " + str(P.maxit) + " " + str(dbits(P.tol)) + " " + str(P.sort) + vec_bits(P.v0);
+}
 static Mat inverse_ld(const Mat& A, double sigma) { MatL M = A.cast<LD>(); for (long i = 0; i < M.rows(); i++) M(i, i) -= (LD) sigma; MatL I = M.partialPivLu().inverse(); return I.cast<double>(); }
 struct NoResp { template <class H> std::string operator()(H&, const Res&) const { return ""; } };
 struct HermResp { const Params* P;
@@ -262,6 +269,14 @@ struct HermResp { const Params* P;
         a += " | ok nmatop=2 | ret=" + str(R.ret) + " info=" + str(R.info) + " niter=" + str(R.niter) + " nmatop=" + str(R.nmatop);
         Vec e1 = s.eigenvalues(); a += " | k=" + str((long) e1.size()); for (long i = 0; i < e1.size(); i++) a += " e:" + str(dbits(e1[i]));
         Mat X1 = s.eigenvectors(P->nev); a += " | rows=" + str(P->n) + " cols=" + str((long) X1.cols()); for (long j = 0; j < X1.cols(); j++) for (long i = 0; i < X1.rows(); i++) a += " " + str(dbits(X1(i, j) + 0.0));
+        a += " | " + SpectraVerifAccess::fachash(SpectraVerifAccess::fac(s)); return a; } };
+
+struct GenResp { const Params* P;
+    template <class H> std::string operator()(H& h, const Res& R) const { auto& s = h.solver(); std::string a;
+        if (R.threw) return " | ok nmatop=2 | throw other";
+        a += " | ok nmatop=2 | ret=" + str(R.ret) + " info=" + str(R.info) + " niter=" + str(R.niter) + " nmatop=" + str(R.nmatop);
+        CVec e1 = s.eigenvalues(); a += " | k=" + str((long) e1.size()); for (long i = 0; i < e1.size(); i++) a += " e:" + str(dbits(e1[i].real())) + " e:" + str(dbits(e1[i].imag()));
+        CMat X1 = s.eigenvectors(P->nev); a += " | rows=" + str(P->n) + " cols=" + str((long) X1.cols()); for (long j = 0; j < X1.cols(); j++) for (long i = 0; i < X1.rows(); i++) a += " " + str(dbits(X1(i, j).real() + 0.0)) + " " + str(dbits(X1(i, j).imag() + 0.0));
         a += " | " + SpectraVerifAccess::fachash(SpectraVerifAccess::fac(s)); return a; } };
 
 // ---- holders: operators + solver, constructed in this order ----
@@ -314,10 +329,10 @@ int main(int argc, char** argv) {
                   sweep(c, log, [&]() { return std::unique_ptr<HSymShift>(new HSymShift(Inv, log, P, sigma)); }, &hdr, HermResp{&P}); break; }
         case 2: { Mat Re = gen_sym(r, n, kind, scale); Mat Im = gen_general(r, n, 1, scale * 0.3); CMat A = Re.cast<CD>() + CD(0, 1) * Im.cast<CD>(); c.cls = "HermEigsSolver";
                   sweep(c, log, [&]() { return std::unique_ptr<HHerm>(new HHerm(A, log, P)); }, nullptr, NoResp()); break; }
-        case 3: { Mat A = gen_general(r, n, kind % 7, scale); c.cls = "GenEigsSolver";
-                  sweep(c, log, [&]() { return std::unique_ptr<HGen>(new HGen(A, log, P)); }, nullptr, NoResp()); break; }
-        case 4: { Mat A = gen_general(r, n, (kind % 7 == 5 || kind % 7 == 3) ? 0 : kind % 7, scale); double sigma = 1.7 * scale * (1 + r.unit()); Mat Inv = inverse_ld(A, sigma); c.cls = "GenEigsRealShiftSolver";
-                  sweep(c, log, [&]() { return std::unique_ptr<HGenReal>(new HGenReal(Inv, log, P, sigma)); }, nullptr, NoResp()); break; }
+        case 3: { Mat A = gen_general(r, n, kind % 7, scale); c.cls = "GenEigsSolver"; std::string hdr = genf_header(0, P, 0.0, A);
+                  sweep(c, log, [&]() { return std::unique_ptr<HGen>(new HGen(A, log, P)); }, &hdr, GenResp{&P}); break; }
+        case 4: { Mat A = gen_general(r, n, (kind % 7 == 5 || kind % 7 == 3) ? 0 : kind % 7, scale); double sigma = 1.7 * scale * (1 + r.unit()); Mat Inv = inverse_ld(A, sigma); c.cls = "GenEigsRealShiftSolver"; std::string hdr = genf_header(1, P, sigma, Inv);
+                  sweep(c, log, [&]() { return std::unique_ptr<HGenReal>(new HGenReal(Inv, log, P, sigma)); }, &hdr, GenResp{&P}); break; }
         case 5: { Mat A = gen_general(r, n, (kind % 7 == 5 || kind % 7 == 3) ? 0 : kind % 7, scale); double sr = 0.9 * scale * r.sym(), si = 0.4 * scale * (0.2 + r.unit()); c.cls = "GenEigsComplexShiftSolver";
                   sweep(c, log, [&]() { return std::unique_ptr<HGenCplx>(new HGenCplx(A, log, P, sr, si)); }, nullptr, NoResp()); break; }
         default: {
